@@ -288,7 +288,8 @@ let macro_decide file =
       | _ -> ()) (read_lines file)
 
 let config_model arg =
-  let ns = if arg = "-" then [] else List.map (fun w -> nat_of_int (int_of_string w)) (split_on ',' arg) in
+  (* "s" = an actor was spawned with the default capacity: no effect on the configuration *)
+  let ns = if arg = "-" then [] else List.map (fun w -> nat_of_int (int_of_string w)) (List.filter (fun w -> w <> "s") (split_on ',' arg)) in
   let (c, rs) = run_sets ns None in
   Printf.printf "sets=%s capacity=%d\n" (String.concat "," (List.map (fun b -> if b then "ok" else "err") rs))
     (int_of_nat (default_cap c))
